@@ -3,6 +3,7 @@ import BGV.Algo.Bfs4
 import BGV.Algo.AllPred3
 import BGV.Algo.Bfs5
 import BGV.Algo.MultiPath3
+import BGV.Algo.MultiPath4
 /-!
 # Property C11 — breadth-first geodesics (part: `findVertexPredecessors`)
 
@@ -21,8 +22,9 @@ destination is unreachable, otherwise a path along stored edges from source to d
 exactly the minimum number of hops.
 
 `findAllGeodesics` (`C11_findAllGeodesics`): the two-stack machine returns exactly the set of all
-shortest paths — each valid, none missing, none repeated — provided it finishes within the
-model's step budget (`multiFuel`; the C++ has no budget, the model's is a technical bound).
+shortest paths — each valid, none missing, none repeated.  (The model's machine carries a step
+budget for structural recursion, `multiFuel n = (n+2)^(n+2)`; `MultiPath.fuel_enough` shows the
+machine never needs that many steps, so the budget never binds and the theorem has no such premise.)
 -/
 namespace BGV
 open Bfs
@@ -187,8 +189,6 @@ theorem C11_findAllGeodesics {L : Type} (g : G L) (s t : Nat) (hs : s < g.size) 
     (s = t → findAllGeodesics g s t = .ok [[s]]) ∧
     (s ≠ t → ¬ Reachable g.adj s t → findAllGeodesics g s t = .ok []) ∧
     (s ≠ t → Reachable g.adj s t →
-      MultiPath.stackCnt (allPredRun g.adj s).preds s (fun v => (allPredRun g.adj s).dist.getD v MAX)
-        ((((allPredRun g.adj s).preds.getD t []).map (fun p => (p, ([] : List Nat)))).reverse) < multiFuel →
       ∃ Ls, findAllGeodesics g s t = .ok Ls ∧ Ls.Nodup ∧
         ∀ path, path ∈ Ls ↔ (chainOK g.adj path ∧ path.head? = some s ∧ path.getLast? = some t ∧
           ∀ k, Walk g.adj s t k → path.length ≤ k + 1)) := by
@@ -220,11 +220,9 @@ theorem C11_findAllGeodesics {L : Type} (g : G L) (s t : Nat) (hs : s < g.size) 
     have : (allPredRun g.adj s).dist.getD t MAX = MAX := by rw [hrun]; exact hdt
     simp only [findAllGeodesics, hr, Bool.not_true, Bool.false_eq_true, if_false, hst, hfap, Res.bind, this,
       ne_eq, not_true_eq_false]
-  · intro hst hrt hsteps
+  · intro hst hrt
     have htfin : r.d t ≠ MAX := (hreach t).1 hrt
     have hdist : (allPredRun g.adj s).dist.getD t MAX ≠ MAX := by rw [hrun]; exact htfin
-    rw [hrun] at hsteps
-    simp only at hsteps
     -- the predecessor structure
     have hPS : MultiPath.PS r.preds s (fun v => r.d v ≠ MAX) r.d := by
       refine ⟨?_, ⟨by rw [hinv.src.1]; decide, hinv.src.2.2.1⟩, ?_, ?_⟩
@@ -243,7 +241,23 @@ theorem C11_findAllGeodesics {L : Type} (g : G L) (s t : Nat) (hs : s < g.size) 
       simp only [List.mem_reverse, List.mem_map] at he
       obtain ⟨p, hp, rfl⟩ := he
       exact (hinv.pvalid t p hp).1
-    have hrunm := MultiPath.multiLoop_spec (t := t) hPS multiFuel _ [] hstack_ok hsteps
+    -- the step budget is never reached
+    have hsteps : MultiPath.stackCnt r.preds s r.d (((r.preds.getD t []).map (fun p => (p, ([] : List Nat)))).reverse)
+        < multiFuel r.preds.length := by
+      have hlenp : ∀ c, (r.preds.getD c []).length ≤ g.adj.length := fun c =>
+        pigeon _ _ (hinv.pnodup c) (fun p hp => hinv.seenlt p (hinv.pvalid c p hp).1)
+      have hrk : ∀ e ∈ ((r.preds.getD t []).map (fun p => (p, ([] : List Nat)))).reverse, r.d e.1 ≤ g.adj.length := by
+        intro e he
+        have := AllPred.dist_lt_n hinv e.1 (hstack_ok e he)
+        omega
+      have h1 := MultiPath.stackCnt_le r.preds s g.adj.length g.adj.length r.d hlenp _ hrk
+      have h2 : (((r.preds.getD t []).map (fun p => (p, ([] : List Nat)))).reverse).length ≤ g.adj.length := by
+        simp only [List.length_reverse, List.length_map]; exact hlenp t
+      have h3 := MultiPath.fuel_enough g.adj.length _ h2
+      rw [hinv.sized.hp]
+      unfold multiFuel
+      omega
+    have hrunm := MultiPath.multiLoop_spec (t := t) hPS (multiFuel r.preds.length) _ [] hstack_ok hsteps
     refine ⟨MultiPath.stackEnum r.preds s t r.d (((r.preds.getD t []).map (fun p => (p, ([] : List Nat)))).reverse), ?_, ?_, ?_⟩
     · simp only [findAllGeodesics, hr, Bool.not_true, Bool.false_eq_true, if_false, hst, hfap, Res.bind,
         hdist, ne_eq, not_false_eq_true, if_true, findMultiplePathsFromPredecessors]
